@@ -23,6 +23,7 @@ EXPLANATION = (
     "included) and kw_defaults with kwonlyargs.  R08.8 (=R14.6): the line table that turns the interpreter's line numbers into offsets breaks lines at '\\n' only.  Token search, parenthesis attribution and write-back equality are not decided."
     ' R08.10: every forward search of the token source starts at the cursor self.offset.'
 )
+EXPLANATION += ' R08.2 is per branch for dispatching handlers: each method the node is handed to covers every field but those the dispatch test looks at.'
 EXPLANATION += ' R08.11: a `col_offset`/`end_col_offset` of an AST node (UTF-8 bytes) reaches a character offset only through codeanalyze.column_to_offset; it is otherwise only compared, or is the start column of a node tested to be a statement.'
 ASSUMPTIONS = [
     "language inclusion is decided over ASCII plus representatives of the non-ASCII \\w/\\d/\\s classes",
@@ -151,6 +152,39 @@ def _check_main(ctx, res) -> None:
                     f"{c}.{f.name} is placed among the children" if ok else
                     f"_{c} never places node.{f.name} among the children it hands to _handle: the node(s) below {c}.{f.name} never receive "
                     f".region/.sorted_children (children expression covers {sorted(sink)})")
+        # a handler that only DISPATCHES (`if len(node.finalbody): self._TryFinally(node) else: self._TryExcept(node)`):
+        # the union above hides a field that one of the branches forgets.  Each method the node is handed to as a whole
+        # must cover every field itself -- except the fields the dispatch test looks at (known empty on one side).
+        for st in h.node.body:
+            if not isinstance(st, ast.If):
+                continue
+            tested = {x.attr for x in ast.walk(st.test) if isinstance(x, ast.Attribute)}
+            for nm in [x.id for x in ast.walk(st.test) if isinstance(x, ast.Name)]:  # a test that was given a name
+                defs = [a.value for a in h.node.body if isinstance(a, ast.Assign) and len(a.targets) == 1 and isinstance(a.targets[0], ast.Name) and a.targets[0].id == nm]
+                if len(defs) == 1:
+                    tested |= {x.attr for x in ast.walk(defs[0]) if isinstance(x, ast.Attribute)}
+            branch_calls = [c for b in (st.body, st.orelse) for s_ in b for c in ast.walk(s_)
+                            if isinstance(c, ast.Call) and is_self_attr(c.func) and len(c.args) == 1 and isinstance(c.args[0], ast.Name)
+                            and c.args[0].id in [a.arg for a in h.node.args.args[1:2]]]
+            for c_ in branch_calls:
+                m_ = idx.find_method(WALKER, c_.func.attr)
+                if m_ is None or m_ is h:
+                    continue
+                msink: Set[str] = set()
+                for e in v.summary(WALKER, m_).effects:
+                    if e.kind == "sink":
+                        msink |= set(e.paths)
+                if not msink:
+                    continue
+                for f in ct.fields:
+                    if not f.is_node or f.type in TOKEN_SUMS or (c, f.name) in EXEMPT_FIELDS or f.name in tested:
+                        continue
+                    okb = _covers(msink, f)
+                    res.add("R08.2", f"{c}.{f.name}@{m_.name}", okb, m_.where,
+                            f"{m_.name} places node.{f.name} among the children" if okb else
+                            f"_{c} hands the whole node to {m_.name}, which never places node.{f.name} among the children it hands to _handle: on that branch the "
+                            f"node(s) below {c}.{f.name} never receive .region/.sorted_children, and their text is scanned for the next token "
+                            f"(children expression covers {sorted(msink)})")
     res.floor("R08.1", "handlers", n_handlers, 70)
 
     # ---- R08.3 operator table
